@@ -418,6 +418,22 @@ def crashBuild (P : Params) (t : Tree) (o : Opts) (ord : List Label) (k : Nat) (
 /-- the process dies at the `k`-th hook point of the load phase -/
 def crashLoad (t : Tree) (k : Nat) (w : World) : World := applySteps w ((loadSteps t w).take k)
 
+/-! ## `RunOptions.apply`: the flags of a Run on an already loaded project -/
+
+structure RunFlags where
+  always : Bool
+  dry : Bool
+deriving DecidableEq, Repr, Inhabited
+
+/-- `(*RunOptions).apply`: the project's flags after `Run(label, options)`; nil options reset BOTH flags (so a Run with
+default options after a dry run on the same `*Project` — library, REPL, watch mode — is a real build) -/
+def applyOptions (_prev : RunFlags) : Option RunFlags → RunFlags
+  | none => ⟨false, false⟩
+  | some o => ⟨o.always, o.dry⟩
+
+/-- the options a build of the model runs with, given the project's flags -/
+def optsOf (fl : RunFlags) (fails : Label → Bool) : Opts := ⟨fl.always, fl.dry, fails⟩
+
 /-! ## record paths (`targetInfoPath`) -/
 
 /-- `shouldEscape(c, encodePathSegment)` of `net/url` for a byte -/
